@@ -34,6 +34,14 @@ IdleStClauses(c) ==
         \cup F("no_qubits", c.uses_qubits)
         \cup F("no_effect", c.unitary))
 
+\* a definition is called, then stretched, then the stretched definition is called with the stretch factor last
+StretchCallClauses(c) ==
+  F("parent_call", c.parent_call # "ok")
+  \cup F("stretched_exists", ~c.has)
+  \cup F("stretched_accept", c.has /\ (c.pos.cls # "ok" \/ c.kw.cls # "ok"))
+  \cup F("pos_eq_kw", c.has /\ c.pos.cls = "ok" /\ c.kw.cls = "ok" /\ ~c.same)
+  \cup F("stretched_arity", c.has /\ c.short.cls # "jaqal_error")
+
 MatRows(mt) == [r \in 1..mt.d |-> [cc \in 1..mt.d |-> mt.m[r][cc]]]
 StretchClauses(c) ==
   LET mt == Mat(c.name, c.cargs) IN
@@ -41,7 +49,7 @@ StretchClauses(c) ==
   \cup F("same_action", mt.has /\ (c.cls # "ok" \/ ~c.exact \/ c.k # mt.e \/ c.m # MatRows(mt)))
   \cup F("no_unitary_kept", ~mt.has /\ c.cls # "none")
 
-GClauses(c) == CASE c.kind = "call" -> CallClauses(c) [] c.kind = "idle" -> IdleClauses(c) [] c.kind = "idle_st" -> IdleStClauses(c)
+GClauses(c) == CASE c.kind = "call" -> CallClauses(c) [] c.kind = "idle" -> IdleClauses(c) [] c.kind = "idle_st" -> IdleStClauses(c) [] c.kind = "stretch_call" -> StretchCallClauses(c)
                  [] c.kind = "stretch" -> StretchClauses(c) [] OTHER -> {"unknown_kind"}
 
 VARIABLE i
